@@ -23,8 +23,9 @@ def run(root, argv, cwd=".", behaviours=None, clock=None, git=None, chooser=None
     return res
 
 
-def tree(root, skip=()):
-    """{relpath: ('d',) | ('f', sha1) | ('l', target)} for everything under root."""
+def tree(root, skip=(), scrub=None):
+    """{relpath: ('d',) | ('f', sha1) | ('l', target)} for everything under root.  `scrub`: byte string (the
+    worker-specific scratch path) replaced in file contents before hashing, so digests are worker independent."""
     out = {}
     root = os.path.abspath(root)
     for d, dirs, files in os.walk(root):
@@ -49,7 +50,10 @@ def tree(root, skip=()):
                 out[rel] = ("l", os.readlink(p))
             else:
                 with open(p, "rb") as f:
-                    out[rel] = ("f", hashlib.sha1(f.read()).hexdigest())
+                    data = f.read()
+                if scrub:
+                    data = data.replace(scrub, b"<SCRATCH>")
+                out[rel] = ("f", hashlib.sha1(data).hexdigest())
     return out
 
 
@@ -82,5 +86,6 @@ SQLITE_NAMES = ("version_index.sqlite", "version_index.sqlite-journal", "version
 
 def data_tree(root):
     """cond-out tree without the sqlite files (their bytes are not canonical)."""
-    t = tree(os.path.join(root, "cond-out")) if os.path.isdir(os.path.join(root, "cond-out")) else {}
+    scrub = driver.scratch_root().encode()
+    t = tree(os.path.join(root, "cond-out"), scrub=scrub) if os.path.isdir(os.path.join(root, "cond-out")) else {}
     return {k: v for k, v in t.items() if os.path.basename(k) not in SQLITE_NAMES}
